@@ -309,7 +309,13 @@ def rule_startup_order(ctx):
     shared.check_failed_steps_retried(ctx, "a step that failed (or was interrupted) while detached comes back FAILED when an ancestor is recycled and skipped, and is never retried: the incremental build fails where a build from scratch succeeds")
 
 
+def rule_rerun_starts_clean(ctx):
+    """R-C01-10: a step that runs again starts from its declaration."""
+    shared.check_reset_for_rerun(ctx, "what the previous run amended, registered or created survives into the next run: the step keeps inputs, outputs, globs or products that its script no longer asks for, which a build from scratch never has")
+
+
 RULES = [
+    Rule("R-C01-10", "a rerun starts from the declaration", rule_rerun_starts_clean, min_instances=9),
     Rule("R-C01-1", "staleness reaches memories (detached-inclusive selectors)", rule_staleness_reaches_memories, min_instances=8),
     Rule("R-C01-2", "skip only after both digests matched", rule_skip_after_digests, min_instances=7),
     Rule("R-C01-4", "a rerun starts from the declared state", rule_rerun_from_declared_state, min_instances=16),
@@ -320,6 +326,17 @@ RULES = [
 ]
 
 MUTANTS = [
+    Mutant("rerun-keeps-dynamic-input-rows", "step.py", in_function("Step.reset_for_rerun", replace_once('        self.db.executemany("DELETE FROM dynamic_dep WHERE i = ?", ((row[0],) for row in rows))\\n'.replace("\\n", "\n"), ''.replace("\\n", "\n"))), ("R-C01-10",)),
+    Mutant("rerun-keeps-dynamic-input-edges", "step.py", in_function("Step.reset_for_rerun", replace_once('        self.del_sources([self.graph.node_from_row(i, kind, label) for _, i, label, kind in rows])\\n'.replace("\\n", "\n"), ''.replace("\\n", "\n"))), ("R-C01-10",)),
+    Mutant("rerun-keeps-dynamic-output-rows", "step.py", in_function("Step.reset_for_rerun", replace_once('        self.db.executemany("DELETE FROM dynamic_dep WHERE i = ?", ideps_sink)\\n'.replace("\\n", "\n"), ''.replace("\\n", "\n"))), ("R-C01-10",)),
+    Mutant("rerun-keeps-dynamic-output-edge", "step.py", in_function("Step.reset_for_rerun", replace_once('            node.del_sources([self])\\n'.replace("\\n", "\n"), ''.replace("\\n", "\n"))), ("R-C01-10",)),
+    Mutant("rerun-keeps-dynamic-output-attached", "step.py", in_function("Step.reset_for_rerun", replace_once('            node.del_sources([self])\\n            node.detach()\\n'.replace("\\n", "\n"), '            node.del_sources([self])\\n'.replace("\\n", "\n"))), ("R-C01-10",)),
+    Mutant("rerun-keeps-static-files", "step.py", in_function("Step.reset_for_rerun", replace_once('            file.detach()\\n'.replace("\\n", "\n"), '            pass\\n'.replace("\\n", "\n"))), ("R-C01-10",)),
+    Mutant("rerun-keeps-static-trees", "step.py", in_function("Step.reset_for_rerun", replace_once('            st.detach()\\n'.replace("\\n", "\n"), '            pass\\n'.replace("\\n", "\n"))), ("R-C01-10",)),
+    Mutant("created-steps-loop-detaches-nothing", "step.py", in_function("Step._detach_created_steps", replace_once('            step.detach()\\n'.replace("\\n", "\n"), '            pass\\n'.replace("\\n", "\n"))), ("R-C01-10",)),
+    Mutant("r10-rerun-keeps-globs", "step.py", in_function("Step.reset_for_rerun", replace_once('        self.db.execute("DELETE FROM nglob WHERE node = ?", (self.i,))\\n'.replace("\\n", "\n"), ''.replace("\\n", "\n"))), ("R-C01-10",)),
+    Mutant("rerun-keeps-dynamic-env", "step.py", in_function("Step.reset_for_rerun", replace_once('        self.db.execute("DELETE FROM env_var WHERE node = ? AND dynamic = 1", (self.i,))\\n'.replace("\\n", "\n"), ''.replace("\\n", "\n"))), ("R-C01-10",)),
+    Mutant("rerun-detaches-attached-products-only", "step.py", in_function("Step._detach_created_steps", replace_once('sql = "SELECT i, label FROM node WHERE creator = ? AND kind = \'step\'"'.replace("\\n", "\n"), 'sql = "SELECT i, label FROM node WHERE creator = ? AND kind = \'step\' AND NOT detached"'.replace("\\n", "\n"))), ("R-C01-10",)),
     Mutant("env-change-not-recorded", "startup.py", in_function("rescan_env_vars", replace_once("                steps_to_rerun[node_i].refresh_env_dep(name)\n", "                pass\n")), ("R-C01-8",)),
     Mutant("recycle-counts-stale-output-edges", "step.py", in_function("Step.can_recycle", lambda s: s.replace(" if r.path in own_paths)", ")") if " if r.path in own_paths)" in s else None), ("R-C01-9",)),
     Mutant("recycle-ignores-new-overrides", "step.py", in_function("Step.after_recycle", replace_once("state == StepState.SUCCEEDED and (self.get_hash() is None or hashed_args_changed)", "state == StepState.SUCCEEDED and self.get_hash() is None")), ("R-C01-9",)),
